@@ -136,8 +136,13 @@ class PatternSuite(Suite):
         return ops
 
     def judge(self, op, impl, model):
+        if impl.get("newerr") and model.get("illegal"):
+            return Verdict(True, True, "")      # a lone '!' (after trimming and cleaning) is rejected by both
+        if model.get("illegal"):
+            return Verdict(False, None, "the model rejects the list (lone '!'), the library accepts it")
         if impl.get("newerr") or impl.get("matcherr") or impl.get("panic"):
-            return Verdict(True, None, "skipped (pattern rejected by the library)")
+            # the generator emits well-formed patterns only (no other rejection occurs on the unchanged code): a rejection is a failure
+            return Verdict(False, False, "the pattern matcher rejected a well-formed pattern list: %s" % (impl.get("newerr") or impl.get("matcherr") or impl.get("panic")))
         ms = model.get("single") or []
         isg = impl.get("single") or []
         agree = impl.get("mopm") == model.get("mopm") and impl.get("upr") == model.get("upr") and len(ms) == len(isg) and \
@@ -218,7 +223,11 @@ class FilterSuite(Suite):
         return out
 
     def judge(self, op, impl, model):
-        if impl.get("newerr") or "out" not in impl:
+        if impl.get("newerr") and model.get("illegal"):
+            return Verdict(True, True, "")
+        if impl.get("newerr"):
+            return Verdict(False, False, "NewFilterFS rejected a well-formed configuration: %s" % str(impl["newerr"])[:200])
+        if "out" not in impl:
             return Verdict(True, None, "skipped: %s" % str(impl)[:100])
         from .sync import norm_stat
         io = [norm_stat(s) for s in (impl["out"] or [])]
